@@ -266,6 +266,25 @@ func (u *Unit) execAssign(st *State, x *ast.AssignStmt) {
 		u.assign(st, x.Lhs[0], v)
 		return
 	}
+	// p := &s[i] : lvalue alias for a slice element
+	if x.Tok == token.DEFINE && len(x.Lhs) == 1 && len(x.Rhs) == 1 {
+		if ue, ok := ast.Unparen(x.Rhs[0]).(*ast.UnaryExpr); ok && ue.Op == token.AND {
+			if ix, ok := ast.Unparen(ue.X).(*ast.IndexExpr); ok {
+				if _, isSlice := u.typeOf(ix.X).Underlying().(*types.Slice); isSlice {
+					if id, ok := x.Lhs[0].(*ast.Ident); ok {
+						idx := u.eval(st, ix.Index)
+						base := u.eval(st, ix.X)
+						_, _, ln, _ := u.sliceParts(base)
+						u.safe("index", x.Pos(), st, sAnd(app("<=", "0", idx.T), app("<", idx.T, ln)), "0 <= index < len")
+						if obj := u.info.Defs[id]; obj != nil {
+							u.elemAlias[obj] = elemAlias{base: ix.X, idx: idx.T}
+							return
+						}
+					}
+				}
+			}
+		}
+	}
 	var vals []Val
 	if len(x.Rhs) == 1 && len(x.Lhs) > 1 {
 		vals = u.evalMulti(st, x.Rhs[0], len(x.Lhs))
@@ -315,6 +334,22 @@ func (u *Unit) execReturn(st *State, x *ast.ReturnStmt) {
 	}
 	if isFalse(st) {
 		return
+	}
+	if u.contract != nil && u.inlineDepth == 0 && u.contract.ReturnAsserts != nil {
+		if k, ok := u.returnOrd[x]; ok {
+			if cls := u.contract.ReturnAsserts[k]; len(cls) > 0 {
+				env := u.funcEnvAt(st, x.Pos())
+				env.results = rs
+				for i, r := range u.results {
+					if r.Name() != "" && r.Name() != "_" && i < len(rs) {
+						env.names[r.Name()] = rs[i]
+					}
+				}
+				for _, cl := range cls {
+					u.checkClause(env, cl, "assert", fmt.Sprintf("%s@return%d", labelOr(cl.Label, "a"), k), x.Pos(), st, true)
+				}
+			}
+		}
 	}
 	u.addExit(Exit{kind: exReturn, st: st, results: rs}, x.Pos())
 }
@@ -746,6 +781,9 @@ func (u *Unit) loopEnv(st *State, scope *types.Scope, pos token.Pos, extra map[s
 	for k, v := range extra {
 		env.names[k] = v
 	}
+	if len(u.loopPre) > 0 {
+		env.loopPre = u.loopPre[len(u.loopPre)-1]
+	}
 	return env
 }
 
@@ -774,6 +812,9 @@ func (u *Unit) execFor(st *State, x *ast.ForStmt) *State {
 	}
 	scope := u.info.Scopes[x]
 	pos := x.Body.Lbrace + 1
+	u.loopPre = append(u.loopPre, st)
+	defer func() { u.loopPre = u.loopPre[:len(u.loopPre)-1] }()
+	u.bindLoopGhosts(ls, st, scope, pos, x.Pos())
 	mods := u.discover(st, func(s *State) []*State {
 		if x.Cond != nil {
 			u.evalCond(s, x.Cond)
@@ -860,6 +901,9 @@ func (u *Unit) execRange(st *State, x *ast.RangeStmt) *State {
 		}
 	}
 	coll := u.eval(st, x.X)
+	u.loopPre = append(u.loopPre, st)
+	defer func() { u.loopPre = u.loopPre[:len(u.loopPre)-1] }()
+	u.bindLoopGhosts(ls, st, scope, pos, x.Pos())
 	runBody := func(s *State) (*State, *xframe) {
 		fr := u.pushFrame(frLoop)
 		ft := u.execBlock(s, x.Body.List)
@@ -1076,4 +1120,24 @@ func dropObjs(in []types.Object, drop ...types.Object) []types.Object {
 		}
 	}
 	return out
+}
+
+// bindLoopGhosts evaluates `loop N ghost name = expr` clauses once at loop entry.
+func (u *Unit) bindLoopGhosts(ls *LoopSpec, st *State, scope *types.Scope, pos, at token.Pos) {
+	for _, g := range ls.Ghosts {
+		env := u.loopEnv(st, scope, pos, nil)
+		var v Val
+		func() {
+			defer func() {
+				if r := recover(); r != nil {
+					if se, ok := r.(specErr); ok {
+						u.unsupported(at, "loop ghost %s: %s", g.Text, se.msg)
+					}
+					panic(r)
+				}
+			}()
+			v = env.eval(g.Expr)
+		}()
+		st.ghost[g.Name] = v
+	}
 }
